@@ -205,8 +205,10 @@ class Check(object):
         t[str(key)] = t.get(str(key), 0) + n
 
     def port_mismatch(self, port, case, model, real, note=''):
-        self.broken.append(('port', port, json.dumps({'case': case, 'model': model, 'real': real, 'note': note},
-                                                     default=repr)[:4000]))
+        if sum(1 for b in self.broken if b[0] == 'port') < 50:
+            self.broken.append(('port', port, {'note': note, 'model': model, 'real': real, 'case': case}))
+        else:
+            self.broken.append(('port', port, {'note': note}))
 
     def fail(self, what, case, classifier=None, detail=None):
         """the property fails on the real code for this concrete case"""
